@@ -153,19 +153,19 @@ Fixpoint lowest_free_ge (t : gmap Z fdent) (i : Z) (fuel : nat) : Z :=
   | O => i
   | S f => match t !! i with None => i | Some _ => lowest_free_ge t (i + 1) f end
   end.
-Definition sys_dupfd (fd minfd : Z) : MW Z :=
+Definition sys_dupfd (fd minfd : Z) (cloexec : bool) : MW Z :=
   let* f := prelude in
   match f with
-  | Some e => fail CDupfd [fd; minfd] [] (Zpos e)
+  | Some e => fail CDupfd [fd; minfd; if cloexec then 1 else 0] [] (Zpos e)
   | None =>
       let* w := get in
       let p := curp w in
       match pr_fds p !! fd with
-      | None => fail CDupfd [fd; minfd] [] EBADF
+      | None => fail CDupfd [fd; minfd; if cloexec then 1 else 0] [] EBADF
       | Some d =>
           let n := lowest_free_ge (pr_fds p) (Z.max 0 minfd) (size (pr_fds p)) in
-          if (0 <=? pr_rlimit p) && (pr_rlimit p <=? n) then fail CDupfd [fd; minfd] [] EMFILE
-          else set_cur_fds (<[n := fd_set_cloexec true d]> (pr_fds p)) ;> done CDupfd [fd; minfd] [] n []
+          if (0 <=? pr_rlimit p) && (pr_rlimit p <=? n) then fail CDupfd [fd; minfd; if cloexec then 1 else 0] [] EMFILE
+          else set_cur_fds (<[n := fd_set_cloexec cloexec d]> (pr_fds p)) ;> done CDupfd [fd; minfd; if cloexec then 1 else 0] [] n []
       end
   end.
 
@@ -216,7 +216,7 @@ Definition put_runs (q : Z) (rs : list run) (w : world) : world :=
 
 Definition write_need (rem : Z) : Z := if rem <=? pipe_atomic then rem else 1.
 Definition pipe_writable_for (q need : Z) (w : world) : bool :=
-  (need <=? pipe_free (get_pipe q w)) || negb (has_reader q w).
+  (need <=? pipe_free_cap (w_pipecap w) (get_pipe q w)) || negb (has_reader q w).
 
 Fixpoint write_loop (fuel : nat) (q : Z) (nonblock : bool) (data : list run) (written : Z)
          (w : world) : write_res :=
@@ -227,7 +227,7 @@ Fixpoint write_loop (fuel : nat) (q : Z) (nonblock : bool) (data : list run) (wr
       if negb (has_reader q w) then (if written =? 0 then WErr EPIPE w else WDone written w)
       else if rem <=? 0 then WDone written w
       else
-        let free := pipe_free (get_pipe q w) in
+        let free := pipe_free_cap (w_pipecap w) (get_pipe q w) in
         let need := write_need rem in
         if need <=? free then
           let k := Z.min rem free in
@@ -287,9 +287,9 @@ Definition revents_of (w : world) (fe : Z * Z) : Z :=
           (if has_bit ev POLLIN && (0 <? p_len (get_pipe q w)) then POLLIN else 0)
           + (if has_writer q w then 0 else POLLHUP)
       | OPipeW q =>
-          if has_reader q w then
-            (if has_bit ev POLLOUT && (pipe_atomic <=? pipe_free (get_pipe q w)) then POLLOUT else 0)
-          else (if has_bit ev POLLOUT then POLLOUT else 0) + POLLERR
+          (* Linux: POLLOUT iff the pipe is not full, whether or not a reader remains; POLLERR iff none *)
+          (if has_bit ev POLLOUT && (pipe_atomic <=? pipe_free_cap (w_pipecap w) (get_pipe q w)) then POLLOUT else 0)
+          + (if has_reader q w then 0 else POLLERR)
       | _ => (if has_bit ev POLLIN then POLLIN else 0) + (if has_bit ev POLLOUT then POLLOUT else 0)
       end
   end.
